@@ -15,7 +15,7 @@ from . import tracecheck
 
 KINDS = ["missing_file", "corrupt_json", "corrupt_xlsx", "overload", "zero_impedance", "island_no_slack",
          "dangling_reference", "no_pflow_element", "tds_after_failed_pflow", "eig_after_failed_pflow",
-         "garbage_raw"]
+         "garbage_raw", "multi_one_overloaded", "multi_one_corrupt"]
 # "all branches out of service" is not an infeasible input under the library's semantics: every bus but the slack bus is
 # reported as islanded and excluded, the power flow of what remains passes its residual test (it used to be "reported" only
 # because System.connectivity() raised IndexError, repaired by 8c24139)
@@ -37,7 +37,29 @@ def run_one(sc):
     nan = False
     kw = sys_kwargs()
     try:
-        if kind in ("missing_file", "corrupt_json", "corrupt_xlsx", "garbage_raw"):
+        if kind in ("multi_one_overloaded", "multi_one_corrupt"):
+            # several cases in one invocation (what `andes run a.json b.json` does): one good case and one that fails
+            import json as _json
+            src = _json.load(open(case_path("5bus/pjm5bus.json")))
+            _json.dump(src, open(os.path.join(d, "a_good.json"), "w"))
+            if kind == "multi_one_overloaded":
+                bad = _json.loads(_json.dumps(src))
+                for dev in bad["PQ"]:
+                    dev["p0"] *= 80.0
+                _json.dump(bad, open(os.path.join(d, "b_bad.json"), "w"))
+            else:
+                open(os.path.join(d, "b_bad.json"), "w").write(_json.dumps(src)[:2000])
+            kw2 = {k: v for k, v in kw.items() if k != "autogen_stale"}
+            try:
+                ec = andes.run(["a_good.json", "b_bad.json"], input_path=d, cli=True, routine="pflow", verbose=50, ncpu=2, **kw2)
+                exit_code = int(ec)
+                ret = (exit_code == 0)
+            except SystemExit as ex:
+                exit_code = int(ex.code or 0)
+                ret = exit_code == 0
+            except Exception as ex:
+                raised = "%s: %s" % (type(ex).__name__, str(ex)[:200])
+        elif kind in ("missing_file", "corrupt_json", "corrupt_xlsx", "garbage_raw"):
             if kind == "missing_file":
                 path = os.path.join(d, "does_not_exist.json")
             elif kind == "corrupt_json":
